@@ -66,6 +66,34 @@ def replay_record(rec):
     return False, f"clause '{label}' holds on the real code for the model inputs"
 
 
+def search_witness(rec, n=24, seed=0, budget_s=60.0):
+    """the solver said `sat` but its model is not a counterexample for the *real* back end (the symbolic x* is far less constrained than a real
+    optimum).  Look for a concrete witness of the same clause among random well-scaled inputs of the same case, on the unpatched code."""
+    import warnings
+    warnings.filterwarnings("ignore")
+    from vf import harness
+    import numpy as np
+    mod = _load(rec["property"])
+    body = getattr(mod, rec["body"])
+    t0 = time.time()
+    for i in range(n):
+        if time.time() - t0 > budget_s:
+            break
+        m = harness.M("float", rng=np.random.default_rng(seed * 1000 + 7919 + i))
+        try:
+            goals = body(m, **rec.get("kwargs", {})) or {}
+            exc = None
+        except harness.SkipSample:
+            continue
+        except Exception as e:  # noqa
+            goals, exc = {}, e
+        label = rec["label"]
+        bad = (exc is not None) if label.startswith("no-exception") else (exc is None and label in goals and not bool(harness.split_goal(goals[label])[0]))
+        if bad:
+            return {k: (v.tolist() if hasattr(v, "tolist") else v) for k, v in m.values.items()}
+    return None
+
+
 def load_known():
     p = os.path.join(ROOT, "known_findings.json")
     if not os.path.exists(p):
@@ -129,18 +157,16 @@ def main(argv=None):
         cases = [c for c in cases if a.only in c["name"]]
     jobs = a.jobs or min(len(cases), os.cpu_count() or 1, 16)
     work = [(prop, c, a.tier, seed) for c in cases]
-    if jobs > 1:
-        with mp.get_context("fork").Pool(jobs, maxtasksperchild=1) as pool:
-            results = list(pool.imap_unordered(_worker, work, chunksize=1))
-    else:
-        results = [_worker(w) for w in work]
-    results.sort(key=lambda r: r["case"])
-
     known = load_known()
     os.makedirs(os.path.join(ROOT, "replays"), exist_ok=True)
     violations, known_hits, inconclusive = [], [], []
-    replayed = 0
-    for r in results:
+    search_budget = [240.0]
+    searched = set()
+    replayed_box = [0]
+    results = []
+
+    def process(r):
+        """replay the solver models of one finished case on the real code and classify them"""
         for inc in r["inconclusive"]:
             inconclusive.append((r["case"], inc))
         seen = set()
@@ -155,21 +181,39 @@ def main(argv=None):
             path = os.path.join(ROOT, "replays", f"{prop}-{h}.json")
             json.dump(rec, open(path, "w"), indent=1, default=str)
             ok, msg = replay_record(rec)
-            replayed += 1
+            replayed_box[0] += 1
+            if not ok and v.get("alt_values"):
+                rec2 = dict(rec, values=v["alt_values"])
+                ok2, msg2 = replay_record(rec2)
+                replayed_box[0] += 1
+                if ok2:
+                    ok, msg, rec = ok2, msg2, rec2
+                    json.dump(rec, open(path, "w"), indent=1, default=str)
+            k = match_known(known, prop, r["case"], v["label"])
+            if not ok and not k and search_budget[0] > 0 and (r["case"], v["label"].split(":")[-1]) not in searched:
+                searched.add((r["case"], v["label"].split(":")[-1]))
+                ts = time.time()
+                w = search_witness(rec, seed=seed, budget_s=min(45.0, search_budget[0]))
+                search_budget[0] -= time.time() - ts
+                if w is not None:
+                    rec3 = dict(rec, values=w, witness="random search after solver sat")
+                    ok3, msg3 = replay_record(rec3)
+                    replayed_box[0] += 1
+                    if ok3:
+                        ok, msg, rec = ok3, msg3 + " (witness found by random search of the same case after the solver's sat verdict)", rec3
+                        json.dump(rec, open(path, "w"), indent=1, default=str)
             if ok:
-                k = match_known(known, prop, r["case"], v["label"])
                 if k:
                     known_hits.append((k, r["case"], v["label"], msg))
                 else:
                     violations.append((path, r["case"], v["label"], msg))
             else:
-                k = match_known(known, prop, r["case"], v["label"])
                 if k and known_demo_reproduces(k)[0]:
                     # same case class and clause as a recorded finding whose stored input still fails on the real code
                     known_hits.append((k, r["case"], v["label"], "stored demonstration: " + known_demo_reproduces(k)[1]))
                 else:
                     inconclusive.append((r["case"], dict(label=v["label"], why="solver model did not reproduce on the real code: " + msg, replay=path)))
-        # translator validation mismatches (a const-goal failure on a clause that is a known finding is the finding itself)
+        # translator validation mismatches (a goal failure on a clause that is a known finding is the finding itself)
         mm = []
         for x in r.get("validate", {}).get("mismatch", []):
             if x.get("kind") in ("const-goal", "float-goal"):
@@ -179,6 +223,30 @@ def main(argv=None):
             mm.append(x)
         if mm:
             inconclusive.append((r["case"], dict(label="translator-validation", why=json.dumps(mm, default=str)[:600])))
+
+    stopped_early = False
+    if jobs > 1:
+        pool = mp.get_context("fork").Pool(jobs, maxtasksperchild=1)
+        try:
+            for r in pool.imap_unordered(_worker, work, chunksize=1):
+                results.append(r)
+                process(r)
+                if violations and os.environ.get("VERIF_KEEP_GOING", "0") != "1":
+                    stopped_early = True  # a replayed violation decides the check; the remaining cases are not needed for the verdict
+                    break
+        finally:
+            pool.terminate()
+            pool.join()
+    else:
+        for w_ in work:
+            r = _worker(w_)
+            results.append(r)
+            process(r)
+            if violations and os.environ.get("VERIF_KEEP_GOING", "0") != "1":
+                stopped_early = True
+                break
+    results.sort(key=lambda r: r["case"])
+    replayed = replayed_box[0]
 
     # ---- evidence
     meta = getattr(mod, "META", {})
@@ -200,6 +268,11 @@ def main(argv=None):
                  "functions on symbolic object arrays; distinct_nontrivial = goals whose simplified z3 term is not the literal "
                  "True, de-duplicated by term hash per case",
             samples=samples,
+            states=max(1, tot("paths")), transitions=max(1, tot("feas_queries")),
+            traces_validated_against_impl=sum(r.get("validate", {}).get("runs", 0) for r in results) + replayed,
+            states_rule="states = symbolic path states explored (one per executed path of the real code); transitions = path-feasibility decisions taken "
+                        "by the solver during exploration; traces_validated_against_impl = inputs pushed through both the symbolic encoding and the "
+                        "unpatched real code (translator validation) plus solver models replayed on the real code",
             obligations=tot("goals"), discharged=tot("unsat"), sat=tot("sat"), unknown=tot("unknown"),
             paths=tot("paths"), reachable_paths=tot("reachable"), exception_paths=tot("exc_paths"),
             cases=[dict(case=r["case"], paths=r["paths"], goals=r["goals"], unsat=r["unsat"], sat=r["sat"], unknown=r["unknown"],
@@ -212,6 +285,7 @@ def main(argv=None):
             translator_validation=dict(runs=sum(r.get("validate", {}).get("runs", 0) for r in results),
                                        observed_compared=sum(r.get("validate", {}).get("observed_compared", 0) for r in results),
                                        mismatches=sum(len(r.get("validate", {}).get("mismatch", [])) for r in results)),
+            cases_planned=len(cases), cases_run=len(results), stopped_after_first_violation=stopped_early,
             exhaustive=False, solver="z3 " + __import__("z3").get_version_string(),
             known_findings_hit=[k[0].get("id", k[0].get("what")) for k in known_hits],
             inconclusive=[dict(case=c, **{k: str(v)[:300] for k, v in i.items()}) for c, i in inconclusive][:20],
